@@ -8,6 +8,7 @@ import (
 
 	admintypes "github.com/Sifchain/sifnode/x/admin/types"
 	clptypes "github.com/Sifchain/sifnode/x/clp/types"
+	tokenregistrytypes "github.com/Sifchain/sifnode/x/tokenregistry/types"
 	govtypes "github.com/cosmos/cosmos-sdk/x/gov/types"
 
 	ethbridgetypes "github.com/Sifchain/sifnode/x/ethbridge/types"
@@ -27,13 +28,20 @@ func reexec(rep *report.Report, c *chain.Chain, n int, kind string, replay inter
 		c.Commit()
 	}
 	ops := c.Ops
+	restartNoted := false
 	saved := time.Local
 	defer func() { time.Local = saved }()
 	for run := 0; run < n; run++ {
 		// every re-execution runs as a node in another local time zone would (the first recorded run used the machine's own):
 		// what is committed must not depend on the process environment
 		time.Local = time.FixedZone(fmt.Sprintf("zone%d", run), []int{3600, -5 * 3600, 9 * 3600, 0, 5*3600 + 1800}[run%5])
-		got := chain.Replay(c.GenesisBytes, c.T0, ops)
+		// every other re-execution also restarts the application (a new instance on the same database) after every
+		// second, third, ... commit
+		restartEvery := 0
+		if run%2 == 1 {
+			restartEvery = 2 + run/2
+		}
+		got := chain.ReplayRestarting(c.GenesisBytes, c.T0, ops, restartEvery)
 		for i, o := range ops {
 			g := got[i]
 			switch {
@@ -43,6 +51,14 @@ func reexec(rep *report.Report, c *chain.Chain, n int, kind string, replay inter
 			case o.Kind == 4 && !bytes.Equal(o.Hash, g.Hash):
 				rep.Violate("C09/app-hash-differs/"+kind, fmt.Sprintf("app hash after block %d differs in re-execution %d: %X vs %X", o.Height, run+1, o.Hash, g.Hash), replay)
 				return len(ops) * (run + 1)
+			case o.Kind == 2 && restartEvery > 0 && o.Code == g.Code && o.Code != 0 && bytes.Equal(o.Data, g.Data) && o.GasW == 0 && g.GasW == 0 && o.GasU != g.GasU:
+				// a transaction refused before the ante handler ran (undecodable, or a message failing ValidateBasic: GasWanted 0).
+				// baseapp then reports as GasUsed what the block's own context has consumed so far, and the first BeginBlock of a
+				// restarted node consumes more there (x/capability rebuilds its in-memory store): finding F-27
+				if !restartNoted {
+					restartNoted = true
+					rep.Violate("C09/gas-of-tx-refused-before-ante/after-restart", fmt.Sprintf("DeliverTx %d in block %d (code %d, GasWanted 0): GasUsed %d on the node that ran all along, %d on the node restarted after every %d commits", i, o.Height, o.Code, o.GasU, g.GasU, restartEvery), replay)
+				}
 			case o.Kind == 2 && (o.Code != g.Code || !bytes.Equal(o.Data, g.Data) || o.GasW != g.GasW || o.GasU != g.GasU):
 				rep.Violate("C09/tx-result-differs/"+kind, fmt.Sprintf("DeliverTx %d in block %d: code %d/%d gas %d/%d", i, o.Height, o.Code, g.Code, o.GasU, g.GasU), replay)
 				return len(ops) * (run + 1)
@@ -127,6 +143,37 @@ func scriptAdminParams(k int) *env.Env {
 	return e
 }
 
+// scriptRegistryChange: corpus history — a pool is processed by the block hooks for some blocks, then the token registry
+// entry of its token is re-registered with other decimals (and later with the old ones again), with blocks and swaps in
+// between: a node that restarts after the change must compute what the node that ran all along computes.
+func scriptRegistryChange() *env.Env {
+	e := env.New(env.Opts{NUsers: 3, Tokens: []string{"ceth", "cusdc"}})
+	e.BeginBlock()
+	mustOK(e.UpdateRewardsParams(0, 0, 0, "", false), "rewards params")
+	n := new(big.Int).Mul(big.NewInt(1000), chain.E(18))
+	mustOK(e.CreatePool(e.Users[0], "ceth", n, new(big.Int).Mul(big.NewInt(2000), chain.E(18))), "create pool")
+	mustOK(e.CreatePool(e.Users[0], "cusdc", n, new(big.Int).Mul(big.NewInt(500), chain.E(18))), "create pool")
+	e.NextBlock()
+	e.NextBlock()
+	reg := func(denom string, decimals int64) {
+		en := regEntry(denom, 7)
+		en.Decimals = decimals
+		mustOK(e.Tx(e.Admin, &tokenregistrytypes.MsgRegister{From: e.Admin.Addr.String(), Entry: en}), "register")
+	}
+	for i, d := range []int64{6, 18, 8} {
+		reg("ceth", d)
+		e.Swap(e.Users[1], "rowan", "ceth", new(big.Int).Mul(big.NewInt(int64(1+i)), chain.E(18)), big.NewInt(0))
+		e.NextBlock()
+		e.Swap(e.Users[2], "ceth", "rowan", chain.E(18), big.NewInt(0))
+		e.NextBlock()
+		e.NextBlock()
+	}
+	mustOK(e.Tx(e.Admin, &tokenregistrytypes.MsgDeregister{From: e.Admin.Addr.String(), Denom: "cusdc"}), "deregister")
+	e.NextBlock()
+	e.NextBlock()
+	return e
+}
+
 // C09 — state-machine determinism: same blocks, same state and results.
 func C09(c Ctx) *report.Report {
 	rep := report.New("C09", c.Seed, c.Tier)
@@ -141,6 +188,12 @@ func C09(c Ctx) *report.Report {
 		calls += reexec(rep, e.Chain, runs, "admin-params", map[string]interface{}{"corpus": "governance proposals with fees around the default submit-proposal fee and around the fee the administrator stores in between", "variant": k})
 		hists++
 		rep.Count("reexecuted.admin-params")
+	}
+	{
+		e := scriptRegistryChange()
+		calls += reexec(rep, e.Chain, 2*runs, "registry-change", map[string]interface{}{"corpus": "two pools; ceth re-registered with 6, 18 and 8 decimals, cusdc deregistered, swaps and blocks in between"})
+		hists++
+		rep.Count("reexecuted.registry-change")
 	}
 	// margin: opens, closes, liquidations and interest in the begin blocker
 	{
